@@ -22,6 +22,9 @@
 (*                                                                         *)
 (* Part (b), run time - one action per observable step of the emitted code:*)
 (*   Start    exactly one call to the RPC on the client's channel (chan 1) *)
+(*            carrying the caller's argument, whatever the request field   *)
+(*            is called (`name`, `operation`, `operation_async`) and       *)
+(*            whether it is passed in a request object or flattened        *)
 (*   Wrap     the method returns an operation future (sync / async) that   *)
 (*            exposes the metadata of the initial reply                    *)
 (*   Return   (plain methods) the method returns the raw reply             *)
@@ -44,7 +47,7 @@ CONSTANTS MaxK,      \* longest not-done prefix
           Scope,     \* "all" | "res" (every resolution case, one history) | "run" (carrier cases, every history)
           Mutant     \* "none" for the real design; anything else is a self-test mutant TLC must reject
 
-VARIABLES c,         \* the case: [ann, out, rsp, mta]           (never changes)
+VARIABLES c,         \* the case: [ann, out, rsp, mta, fld, form] (never changes)
           h,         \* the history: [k, outcome, value, code]   (never changes)
           mode,      \* "sync" | "asyncio" client                (never changes)
           stage,     \* "load" | "resolve" | "ready" | "failed"
@@ -76,12 +79,24 @@ TypeRefs == {r \in [kind : {"rel", "fq", "empty"}, site : Sites] :
                /\ (r.site = "empty_pb" => r.kind = "fq")     \* a relative `Empty` would name P.Empty, which does not exist
                /\ (r.kind = "empty" => r.site = "same")}     \* canonical: the site of an unnamed type is irrelevant
 Canon == [kind |-> "rel", site |-> "same"]
-ResCases == {x \in [ann : BOOLEAN, out : {"op", "other"}, rsp : TypeRefs, mta : TypeRefs] :
-               ~x.ann => (x.rsp = Canon /\ x.mta = Canon)}
-Carriers == { [ann |-> TRUE, out |-> "op", rsp |-> [kind |-> "rel", site |-> "unimp_after"], mta |-> [kind |-> "rel", site |-> "imported"]],
+\* How the caller names the resource: the request field is called `fld` and is passed either inside a request
+\* object or as a flattened keyword argument (method_signature = fld).  `operation` / `operation_async` are the
+\* names of the api-core modules the emitted clients wrap the reply with: the property does not depend on any of it.
+Fields == {"name", "operation", "operation_async"}
+Forms == {"request", "flattened"}
+Arg == "things/1"
+Shape(x, f, g) == [ann |-> x.ann, out |-> x.out, rsp |-> x.rsp, mta |-> x.mta, fld |-> f, form |-> g]
+ResCases == {Shape(x, "name", "request") : x \in
+               {y \in [ann : BOOLEAN, out : {"op", "other"}, rsp : TypeRefs, mta : TypeRefs] :
+                  ~y.ann => (y.rsp = Canon /\ y.mta = Canon)}}
+CarrierTypes ==
+            { [ann |-> TRUE, out |-> "op", rsp |-> [kind |-> "rel", site |-> "unimp_after"], mta |-> [kind |-> "rel", site |-> "imported"]],
               [ann |-> TRUE, out |-> "op", rsp |-> [kind |-> "fq", site |-> "empty_pb"], mta |-> [kind |-> "fq", site |-> "same"]],
+              [ann |-> TRUE, out |-> "op", rsp |-> [kind |-> "fq", site |-> "empty_pb"], mta |-> [kind |-> "rel", site |-> "same"]],
               [ann |-> TRUE, out |-> "op", rsp |-> [kind |-> "fq", site |-> "unimp_before"], mta |-> [kind |-> "fq", site |-> "empty_pb"]],
               [ann |-> FALSE, out |-> "op", rsp |-> Canon, mta |-> Canon] }
+Carriers == {Shape(x, "name", "request") : x \in CarrierTypes}
+            \cup {Shape(x, f, g) : x \in {y \in CarrierTypes : y.ann}, f \in Fields \ {"name"}, g \in Forms}
 
 MinOf(S) == CHOOSE x \in S : \A y \in S : x <= y
 Hists == {x \in [k : 0..MaxK, outcome : {"response", "error"}, value : Values, code : Codes] :
@@ -166,7 +181,7 @@ MetaAt(i) == [type |-> MetaType, value |-> ValueIn(MetaType, i)]
 NPolls == Len(calls) - (IF phase = "idle" THEN 0 ELSE 1)
 
 Start == /\ stage = "ready" /\ phase = "idle"
-         /\ calls' = <<[rpc |-> "Run", chan |-> 1, name |-> ""]>>
+         /\ calls' = <<[rpc |-> "Run", chan |-> 1, name |-> IF Mutant = "lose_argument" THEN "" ELSE Arg]>>
          /\ cur' = 1 /\ phase' = "called"
          /\ UNCHANGED <<cs, stage, pos, known, genres, lro, future, seenMeta, result, raised>>
 
@@ -233,7 +248,7 @@ Inv_Plain == /\ Generated /\ ~IsLroCandidate => genres = "plain"
 Inv_FutureKind == IsFuture => future = IF mode = "asyncio" THEN "async" ELSE "sync"
 \* exactly one call to the RPC
 Inv_OneStart == /\ Cardinality({i \in DOMAIN calls : calls[i].rpc = "Run"}) = IF phase = "idle" THEN 0 ELSE 1
-                /\ calls # <<>> => calls[1].rpc = "Run"
+                /\ calls # <<>> => calls[1].rpc = "Run" /\ calls[1].name = Arg    \* ... carrying the caller's argument
 \* polls = k, consistent with the history at every step; nothing but GetOperation with the operation's name
 Inv_Polls == /\ NPolls <= h.k
              /\ IsFuture => NPolls = cur - 1
@@ -257,7 +272,7 @@ FileRec(f) == [id |-> f, pkg |-> PkgOf(f), msgs |-> SimpleMsgs(f), imports |-> I
 PollCalls == SubSeq(calls, 2, Len(calls))
 Emit == Terminal =>
     PrintT(<<"CASE", ToJson(
-       [ann |-> c.ann, out |-> c.out, rsp |-> c.rsp, mta |-> c.mta,
+       [ann |-> c.ann, out |-> c.out, rsp |-> c.rsp, mta |-> c.mta, fld |-> c.fld, form |-> c.form, arg |-> Arg,
         respName |-> Written(c.rsp, RSP), metaName |-> Written(c.mta, MTA),
         outType |-> IF c.out = "op" THEN OP ELSE THING,
         files |-> [i \in 1..Len(ReqOrder) |-> FileRec(ReqOrder[i])],
